@@ -108,12 +108,12 @@ func (r *rwRT) ruleTmplRange() {
 				if err == nil && countLeaf(o.St, o.Ret[1], "n.X") != 0 {
 					err = fmt.Errorf("the range operand is evaluated again inside the loop")
 				}
-				if err == nil {
+				if itv, bound := m.binds["it"]; bound {
 					// the iterator variable must come from gensym (unique per loop)
-					itObj := o.St.Obj(unwrap(m.binds["it"]))
-					if itObj == nil || !strings.Contains(itObj.Fields["Name"].String(), "gensym") {
-						err = fmt.Errorf("iterator variable name does not come from gensym: %s", o.St.Render(m.binds["it"]))
-					}
+					itObj := o.St.Obj(unwrap(itv))
+					named := itObj != nil && itObj.Fields["Name"] != nil && strings.Contains(itObj.Fields["Name"].String(), "gensym")
+					c.check(named, "RW.TMPL.RANGE.GENSYM", construct, pos, "the iterator temporary is named through gensym (unique within the file, so sequential and nested range loops never clash)",
+						"the iterator temporary's name does not come from gensym: sequential or nested range loops in one scope clash")
 				}
 				if err == nil {
 					c.ok("RW.TMPL.RANGE", construct, pos, "it := <iter>; for it.MoveNext() { vars (tok) it.Current().Key/.Val; body } — operand once, loop's own token, key from .Key, value from .Val, original body nested for ':='")
